@@ -37,6 +37,9 @@ CLAIMED = {
  "C02": ("bounds/size/divisor obligations over the decode fragment decided by linear integer arithmetic (Fourier–Motzkin) on SSA values, with pre/postconditions, loop-phi invariants and slab invariants inferred inductively (Houdini); grammar-rejection facts proved at every success exit; recursion-cycle depth-parameter analysis; entry-point argument comparison",
          "Decides that every index, slice, binary.BigEndian read, divisor and allocation size reachable from Decode/DecodeOwned is in range / bounded by the input length for every input (so no bounds-check panic and no allocation driven by a claimed length), that every success exit of the decoders has rejected zero length-byte count, truncated header/payload, non-multiple payloads, short localized strings, undefined codes and over-deep nesting, that the recursion is depth-bounded, and that the copying and owning entry points run the same decoder. Does not decide the decoded values or re-encode equality.",
          "§4 C02"),
+ "C01": ("constant and decision-table comparison of the format-code / width tables with SEMI E5; bit-provenance evaluation of the item header bytes on every path of appendHeaderBytesFC and cell table of headerLen; width-fact analysis of every encoding/binary operation and conversion-chain analysis of sign extension; term comparison of the length written by AppendTo with the length EncodedLen sizes; path analysis of the errored/raw guards; linear-arithmetic proof of the retained raw slice bounds; admission analysis of NewListItem",
+         "Decides that the format codes and element widths used by encoders and decoder are the E5 table, that the item header is format<<2|count with the minimal big-endian length bytes and agrees with headerLen on every cell, that every binary operation in a width-k arm is a big-endian 8k-bit operation and signed elements are sign-extended, that AppendTo and EncodedLen use the same E5 length quantity per type, that errored items contribute nothing and decoded items re-emit exactly their own wire bytes, and that a list header counts exactly the children emitted. Element values and whole round trips are not decided.",
+         "§4 C01"),
  "C03": ("bit-provenance (layout) evaluation of every header byte along the success paths of NewDataMessage, the re-stamping methods, the control-message factories and the serialisers, composed with the accessors; path-exact validation table of NewDataMessage; identity check of builder setters; acceptance tables of the decoders; value-flow of the built frame to the transport",
          "Decides, bit for bit, that the ten header bytes built for data and control messages are the E37 layout and that every accessor reads back what the builder wrote; that re-stamping changes exactly bytes 0–1 / 6–9 and shares body and decode state; that ToBytes and the socket path emit BE32(10+bodyLen) ‖ header ‖ body with the length taken from the buffers written; that construction rejects exactly stream > 127, W on an even function and errored bodies (builders included); and the decoders' acceptance tables. Body bytes and dynamic equality are not decided.",
          "§4 C03"),
